@@ -433,7 +433,7 @@ Section Guards.
      C01_sequence_tokens_refuted), no wrapper element (modelling rule: every item gets its own
      wrapper element, which reads back but is not proved) *)
   Definition seq_member (v : xvar) : bool :=
-    no_wrapper v && match v_tokens_factory v with None => true | Some _ => false end && negb (v_nillable v).
+    no_wrapper v && match v_tokens_factory v with None => true | Some _ => false end.
   Fixpoint seq_spans_ok (fuel : nat) (vars : list xvar) : bool :=
     match fuel with
     | O => false
